@@ -5,7 +5,8 @@ PROPERTY = "C03"
 STATEFUL = True
 READY = True
 THEOREMS = ["C03.recCheck_iff", "C03.accepted_no_cycle", "C03.user_cycle_iff", "C03.accepted_user_acyclic",
-            "C03.rejected_user_cyclic", "C03.ctor_recursive_iff", "C03.stack_bound", "C03.stack_bound_parse",
+            "C03.rejected_user_cyclic", "C03.ctor_recursive_iff", "C03.nullables_total", "C03.ctor_recursive_hyps_met",
+            "C03.ctor_recursive_iff_templates", "C03.accepted_user_acyclic_templates", "C03.stack_bound", "C03.stack_bound_parse",
             "C03.run_terminates", "C03.parse_terminates", "C03.parse_total", "C03.templates_total", "C03.parse_from_total"]
 RULE = ("one case = one generated grammar (unbiased / mostly non-left-recursive / shaped / LL(1)-ish / hidden-recursion / DFS-bookkeeping "
         "generators, names permuted; 15 % grammars with ProdSequence / ListProds / MapProds keys incl. nullable members and items and recursion THROUGH the "
@@ -19,8 +20,14 @@ RULE = ("one case = one generated grammar (unbiased / mostly non-left-recursive 
         "budget (sys.settrace); non-trivial = at least one tree and one ParsingError, or the reference test says "
         "left-recursive; distinct by protocol text")
 TRUSTED = ["re (lexemes are found by the harness with the tokenizer's own pattern)",
-           "sys.settrace: the depth of the parse stack at every push is compared with the bound of C03.stack_bound_parse "
-           "((|tokens|+1)*(symbols+3)); a line-event budget (constructor 10^6, parse 3*10^7) is only a backstop"]
+           "sys.settrace. Observable of 'parse grows its stack without bound / never returns': the depth of the parse stack at "
+           "every push is compared with (len(text)+2) * (keys + terminals + 3). C03.stack_bound_parse proves a bound "
+           "(|tokens|+1)*B with SOME B that depends on the grammar only; that the concrete B = keys + terminals + 3 used here is "
+           "large enough (ranks are positions among the examined symbols) is NOT kernel-checked - a too small value would show "
+           "as a false alarm on the unchanged tree. This depth bound replaced the line-event budget as the observable for "
+           "parse (the budget gave false alarms on legitimately exponential backtracking); the parse budget 3*10^7 remains as a "
+           "backstop only. Observable of 'the constructor gives no verdict': a budget of 10^6 line events of llparser.py for one "
+           "constructor call (HEAD needs about 10^5 for the largest generated grammar, 40 levels)"]
 ASSUMPTIONS = ["'GrammarIsRecursive is raised exactly when ...' is a theorem at the level of the recursion check and of the user's "
                "dictionary (C03.recCheck_iff + C03.user_cycle_iff: cycle of the factorised dictionary <=> cycle of the user's "
                "productions w.r.t. their least nullable set) and of the constructor (C03.ctor_recursive_iff, with the success of "
@@ -113,7 +120,13 @@ LEVEL_TEXT = ("Kernel-checked on the executable model, for ALL grammars and inpu
               "GrammarIsRecursive iff some symbol of the (factorised) dictionary reaches itself behind nullables, for every "
               "visiting order / assignment of names, and never anything else (C03.recCheck_iff), and that holds iff the "
               "productions the user wrote are left recursive (C03.user_cycle_iff, accepted_user_acyclic, "
-              "rejected_user_cyclic); every accepted grammar "
+              "rejected_user_cyclic). At the level of the constructor the iff (C03.ctor_recursive_iff) is CONDITIONAL on the success "
+              "of all other stages (terminal names, skip set, _create_productions, factorisation, part-1 checks, nullables, FIRST, "
+              "FOLLOW, table - their failures are other exceptions); these hypotheses are satisfiable and hold whenever the "
+              "constructor returns a parser (C03.ctor_recursive_hyps_met, C03.nullables_total), so 'accepted => not left recursive' "
+              "is unconditional while 'left recursive => GrammarIsRecursive' assumes the other stages do not fail first. The same "
+              "iff through the template expansion: C03.ctor_recursive_iff_templates / accepted_user_acyclic_templates (cycle of "
+              "the EXPANDED dictionary; the expansion itself is data, C05's subject). Every accepted grammar "
               "terminates on every token list, returns a tree or raises ParsingError, never IndexError (C03.parse_terminates, "
               "C03.parse_total; with an explicit start symbol C03.parse_from_total) and its stack stays below (|tokens|+1)*B "
               "(C03.stack_bound_parse) - no assumption on the input. "
